@@ -57,7 +57,7 @@ def run(ctx):
     _verdict(run, "C06.R2", lf, "self.url = resource.url; own empty stack",
              r, m)
     # self.url is written only in the constructor
-    writers = [(meth.qualname, m.loc(meth, st))
+    writers = [(m.owner(meth).qualname, m.loc(meth, st))
                for c in [m.cls(PC)] + [m.classes[s] for s in
                                        m.subclasses(PC) if s != PC]
                for st, meth in c.fields.get("url", [])]
@@ -132,7 +132,7 @@ def run(ctx):
               "directive", loc=m.loc(parse, parse.node))
 
     # R4: stack
-    stack_writers = [(meth.qualname, src(st)) for st, meth in
+    stack_writers = [(m.owner(meth).qualname, src(st)) for st, meth in
                      m.cls(PC).fields.get("stack", [])]
     run.check(stack_writers == [(PC + ".__init__", "self.stack = []")],
               "C06.R4", PC, "section stack field",
